@@ -11,12 +11,17 @@
     suppressed as redundant.
   * `timing_block_redecoded` (file level): re-decoding the encoded file leaves, as control points of the new map, exactly what
     the decoder's state machine (`applyTpLine`, C12) builds from the VALUES WRITTEN, line by line.
-  Not proved (`timing_rt_statement`): that this state machine, run over those values, rebuilds the same timing points and the
-  same effective SV / kiai / scroll-speed timelines (the decoder's pending-group and redundancy logic against the encoder's).
+  * `timing_rt` (exact arithmetic: `EpsLaws`, `GroupLaws`, `TimelineHyps`): that state machine, run over those values,
+    rebuilds the same timing points and, at every time, the same effective slider velocity (scroll speed in taiko / mania)
+    and kiai flag — the decoder's pending-group and redundancy logic against the encoder's group loop and its suppression.
+  * `timing_roundtrip_file`: both together — encode, bytes, reader, framing, `Beatmap` decoder, finalisation: the new map has
+    the old map's timing points and effective velocity / kiai timelines.
+  Helper lemmas: Lemmas/RtTimingRt.lean, RtTimelineAdd / Run / Groups / Step / Main / File.lean.
 -/
 import RosuModel.Props.C02
 import RosuModel.Props.C04Timing
 import RosuModel.Lemmas.RtTimingRt
+import RosuModel.Lemmas.RtTimelineFile
 namespace Rosu.C02
 open Rosu Encode EncodeLines C11 RtTiming Scalar
 
@@ -160,22 +165,90 @@ example : ((mapEntries C04.sampleMap C04.sampleCollected).map (Entry.read Sample
   rw [C04.sample_groups]
   rfl
 
-/-- the remainder of layer 5, not yet a theorem. Under the codec laws and exact arithmetic (`EpsLaws`, the arithmetic inverse
-for every velocity, clamp fixpoints, `|t − t| < ε`), for a sorted collection `cp` free of adjacent redundancy whose entries
-are representable: the decoder's state machine run over the values written (`timing_block_redecoded`) rebuilds the same
-timing points and the same effective slider-velocity / scroll-speed and kiai timelines. -/
-def timing_rt_statement : Prop :=
-  ∀ (F P : Type) [Scalar F] [Scalar P] (R : F → Prop), CodecLaws F R → EpsLaws F →
-    ∀ (g0 : GeneralState F P) (cp : ControlPoints F),
-      C13.Sorted cp → C13.NoAdjacentRedundancy cp → RepCp R g0.mode cp → RepTimes R cp →
-      (∀ v ∈ (1 : F) :: svSource g0.mode cp, SvInverse v ∧
-        clamp v (if g0.mode = .taiko ∨ g0.mode = .mania then (0.01 : F) else (0.1 : F)) (10 : F) = v) →
-      (∀ t ∈ cp.timingPoints, clamp t.beatLen (6 : F) (60000 : F) = t.beatLen) →
-      (∀ x : F, sameGroup x x = true) →
-      let cp' := (C12.runTpLines { (TimingPointsState.create : TimingPointsState F P) with general := g0 }
-        ((groupEntries g0.mode cp (timingGroups cp) Props.default).map (Entry.read g0.defaultSampleBank))).finish.2
-      cp'.timingPoints = cp.timingPoints ∧
-      ∀ u : F, svFor g0.mode cp' u = svFor g0.mode cp u ∧
-        ((cp'.effectPointAt u).map (·.kiai)).getD false = ((cp.effectPointAt u).map (·.kiai)).getD false
+/-- **timing_rt** (layer 5 of DESIGN 5.2, collection level; exact arithmetic). Let `cp` be a collection satisfying
+`TimelineHyps` for the mode (sorted; numerators `≥ 1`; timing points with a non-negative beat length inside the clamp
+`[6, 60000]`; every slider velocity — scroll speed in taiko / mania — and the default `1` invertible through `-100 / v` and
+inside its clamp). Under `EpsLaws` (`|a − b| < ε ↔ a = b`) and `GroupLaws` (the decoder's grouping test likewise): run the
+decoder's state machine from the fresh state (any `[General]` values of that mode) over the values written for the entries
+of the `[TimingPoints]` block. The collection it flushes to has the SAME timing points (times, beat lengths, signatures,
+omit-first-bar-line flags, in order), and at EVERY time the same effective slider velocity / scroll speed and the same kiai
+flag — the encoder's group construction, property carry-over and redundancy suppression against the decoder's pending
+groups, precedence rules and redundancy checks. -/
+theorem timing_rt (E : EpsLaws F) (G : GroupLaws F) {mode : GameMode} {cp : ControlPoints F} (H : TimelineHyps mode cp)
+    (g0 : GeneralState F P) (hm : g0.mode = mode) :
+    let cp' := (C12.runTpLines { (TimingPointsState.create : TimingPointsState F P) with general := g0 }
+      ((groupEntries mode cp (timingGroups cp) Props.default).map (Entry.read g0.defaultSampleBank))).finish.2
+    cp'.timingPoints = cp.timingPoints ∧
+    ∀ u : F, svFor mode cp' u = svFor mode cp u ∧ kiaiAt cp' u = kiaiAt cp u :=
+  timing_roundtrip E G H g0 hm
+
+/-- the laws of `timing_rt` are satisfiable (integer toy scalar `ZC`, `eps = 1`). -/
+theorem timing_rt_laws_satisfiable : EpsLaws ZC ∧ GroupLaws ZC := ⟨zc_epsLaws, zc_groupLaws⟩
+
+section
+variable [Cvt P F] [Trig F] [Trig P]
+
+/-- **timing_roundtrip_file** (file level; codec laws + exact arithmetic). Encode a map whose record sections and control
+points are representable and whose own control points satisfy `TimelineHyps`; read the UTF-8 bytes back with the `Beatmap`
+decoder: reading succeeds, and whenever finalisation succeeds the new map has the old map's timing points and, at every
+time, the old map's effective slider velocity (scroll speed in taiko / mania: `effect_point_at`, otherwise
+`difficulty_point_at`, default `1`) and kiai flag (`effect_point_at`, default off). -/
+theorem timing_roundtrip_file (LF : CodecLaws F RF) (LP : CodecLaws P RP) (LI : IntPrintLaw F) (E : EpsLaws F)
+    (G : GroupLaws F) (m : Beatmap F P) (hm : RtFile.RepRecords RF RP m) (hmt : RepTimingMap RF m)
+    (hth : TimelineHyps m.general.mode m.controlPoints) (t : Str) (H : List Str)
+    (h : encode m = .ok t) (hH : encodeHitObjects m = .ok (unlines (str "[HitObjects]" :: H)))
+    (sH : RtFile.ListBlockShape H) :
+    ∃ st : BeatmapState F P, decodeBytes beatmapDecoder (utf8Encode t) = .ok st ∧
+      ∀ m2 : Beatmap F P, st.finish = .ok m2 →
+        m2.controlPoints.timingPoints = m.controlPoints.timingPoints ∧
+        ∀ u : F,
+          (match m.general.mode with
+           | .taiko | .mania =>
+             ((m2.controlPoints.effectPointAt u).map (·.scrollSpeed)).getD (1 : F) =
+               ((m.controlPoints.effectPointAt u).map (·.scrollSpeed)).getD (1 : F)
+           | _ =>
+             ((m2.controlPoints.difficultyPointAt u).map (·.sliderVelocity)).getD (1 : F) =
+               ((m.controlPoints.difficultyPointAt u).map (·.sliderVelocity)).getD (1 : F)) ∧
+          ((m2.controlPoints.effectPointAt u).map (·.kiai)).getD false =
+            ((m.controlPoints.effectPointAt u).map (·.kiai)).getD false := by
+  obtain ⟨cp, st, hc, hst, htp, hfin⟩ := timing_block_redecoded LF LP LI m hm hmt t H h hH sH
+  refine ⟨st, hst, fun m2 h2 => ?_⟩
+  have hcp := hfin m2 h2
+  rw [htp] at hcp
+  obtain ⟨r1, r2⟩ := timing_roundtrip E G (timelineHyps_collected m cp hc hth)
+    (RtGeneral.preservedGeneral m.general (RtGeneral.sampleSetOf m.controlPoints)) rfl (P := P)
+  have e : m2.controlPoints = (C12.runTpLines { (TimingPointsState.create : TimingPointsState F P) with
+      general := RtGeneral.preservedGeneral m.general (RtGeneral.sampleSetOf m.controlPoints) }
+      ((groupEntries m.general.mode cp (timingGroups cp) Props.default).map
+        (Entry.read (RtGeneral.preservedGeneral m.general (RtGeneral.sampleSetOf m.controlPoints)).defaultSampleBank))).finish.2 := hcp
+  rw [e]
+  refine ⟨r1.trans (collectSamples_others m cp hc).1, fun u => ?_⟩
+  obtain ⟨c1, c2⟩ := collected_values m cp hc u
+  have hsv := (r2 u).1.trans c1
+  refine ⟨?_, (r2 u).2.trans c2⟩
+  revert hsv
+  generalize m.general.mode = mode
+  intro hsv
+  cases mode <;> exact hsv
+
+/-- non-vacuity: `C04.sampleMap` (toy codec; mania, two timing points, scroll speeds 2 and 4, kiai, a collected object sample, a
+suppressed redundant group) satisfies every hypothesis. -/
+theorem sample_timeline_hyps : TimelineHyps C04.sampleMap.general.mode C04.sampleMap.controlPoints where
+  sorted := ⟨by unfold C13.SortedBy; decide, by unfold C13.SortedBy; decide, by unfold C13.SortedBy; decide,
+    by unfold C13.SortedBy; decide⟩
+  sig := by decide
+  beat := by decide
+  sv := by
+    intro v hv
+    have : v = 1 ∨ v = ⟨2⟩ ∨ v = ⟨4⟩ := by
+      simpa [svSource, C04.sampleMap, C04.sampleCp, RtGeneral.sample] using hv
+    rcases this with rfl | rfl | rfl <;>
+      exact ⟨⟨by decide, by decide⟩, by show clamp _ (0.01 : ZC) (10 : ZC) = _; decide⟩
+
+example (t : Str) (h : encode C04.sampleMap = .ok t) :=
+  timing_roundtrip_file ZC.laws ZC.laws ZC.intPrintLaw zc_epsLaws zc_groupLaws C04.sampleMap C04.sample_records_rep
+    C04.sample_timing_rep sample_timeline_hyps t _ h C04.sample_objects_text C04.sample_objects_shape
+
+end
 
 end Rosu.C02
